@@ -227,6 +227,26 @@ def norm_q(s):
     return "%d/%d" % (f.numerator, f.denominator)
 
 
+import re as _re
+
+_FIN_LOT = _re.compile(r"^(.*?)\{(\S+) (.*?)\}\[(.*?)\]\((.*)\)$")
+_AUTO_LOT = _re.compile(r"^(.*?)\{(\S+?):(.*?)\}\[(-?\d*)\]$")
+
+
+def lot_of(comm, who):
+    """(per-unit price n/d, price commodity, day number) of a lot-annotated commodity key, None for a plain one.
+    C01/C02 writes `BASE{n/d SYM}[YYYY/MM/DD](tag)`, C16 `BASE{n/d:SYM}[day]`."""
+    m = (_FIN_LOT if who == "fin" else _AUTO_LOT).match(comm)
+    if not m:
+        return None
+    if who == "fin":
+        d = m.group(4)
+        day = jgen.day_of(*[int(t) for t in d.split("/")]) if d else None
+    else:
+        day = int(m.group(4)) if m.group(4) else None
+    return (norm_q(m.group(2)), m.group(3), day)
+
+
 def obs(verdict, rows=(), krows=None):
     """rows: (account, n/d, commodity); krows (FinX and AutoXact only): the same in posting ORDER with the kind."""
     d = {"verdict": verdict, "rows": sorted(rows)}
@@ -245,8 +265,10 @@ def parse_fin(ans):
     for r in f[1:]:
         acct, kind, amt = r.split("|")[:3]
         q, prec, _keep, comm = amt.split(":", 3)
+        lot = lot_of(comm, "fin")
+        comm = comm.split("{")[0]          # C01/C02 annotates a posting that has a cost with its lot: compare base symbols
         rows.append((acct, norm_q(q), comm))
-        krows.append((acct, kind, norm_q(q), prec, comm))
+        krows.append((acct, kind, norm_q(q), prec, comm, lot))
     return obs("ok", rows, krows)
 
 
@@ -263,9 +285,10 @@ def parse_auto(ans):
         # xact line|posting line|account|kind|state|q:prec:keep:comm|cost|note|generated|calculated
         _xl, _pl, acct, kind, _state, amt = r.split("|")[:6]
         q, prec, _keep, comm = amt.split(":", 3)
+        lot = lot_of(comm, "auto")
         comm = comm.split("{")[0]          # C16 annotates a posting that has a cost with its lot: compare base symbols
         rows.append((acct, norm_q(q), comm))
-        krows.append((acct, kind, norm_q(q), prec, comm))
+        krows.append((acct, kind, norm_q(q), prec, comm, lot))
     return obs("ok", rows, krows)
 
 
@@ -360,7 +383,7 @@ def compare(o):
         elif cx == "ok" and x["rows"] != y["rows"]:
             dis.append(((a, b), "rows differ"))
         elif cx == "ok" and "krows" in x and "krows" in y and x["krows"] != y["krows"]:
-            dis.append(((a, b), "rows differ"))      # order, kind or precision counter (FinX vs AutoXact)
+            dis.append(((a, b), "rows differ"))      # order, kind, precision counter or computed lot (FinX vs AutoXact)
     return dis
 
 
